@@ -2,6 +2,7 @@ package e1
 
 import (
 	"fmt"
+	"os"
 	"strings"
 
 	"vctl/internal/grog"
@@ -65,7 +66,7 @@ func RunC02(tier string) int {
 					if len(ts) > 0 {
 						t := rng.Pick(r, ts)
 						o := rng.Pick(r, t.AllOuts())
-						name = env.Perturb(r, t, o, rng.Pick(r, PerturbKinds))
+						name = env.Perturb(r, t, o, rng.Pick(r, PerturbKindsExec))
 					}
 				case x < 12: // quiet command change: early cut-off expected for dependants
 					name = env.Apply(func() string { return OpQuiet(r, env) })
@@ -146,6 +147,27 @@ func RunC02(tier string) int {
 				} else if v.Kind != "exec" {
 					run.Count("divergence_other_property:"+v.Kind, 1)
 					Debugf("case %d: other-property divergence %s: %s | %s", i, v.Kind, v.Sig, v.What)
+				}
+			}
+			if strings.Contains(name, "symlink") {
+				// what the restore leaves at a path that held a symlink is not judged here; take
+				// the link away again (an absent output, restored by the next build) and go on
+				for _, t := range env.Spec.Targets {
+					for _, o := range t.AllOuts() {
+						abs := spec.OutAbs(env.WS, t.Pkg, o.Path)
+						if fi, err := os.Lstat(abs); err == nil && fi.Mode()&os.ModeSymlink != 0 && o.Kind == "file" {
+							_ = os.Remove(abs)
+						}
+					}
+				}
+				onlyBytes := true
+				for _, v := range vs {
+					if v.Kind != "restore" && v.Kind != "bytes" {
+						onlyBytes = false
+					}
+				}
+				if onlyBytes {
+					continue
 				}
 			}
 			if len(vs) > 0 {
